@@ -16,6 +16,13 @@ def only(*prefixes):
     return f
 
 
+CODEC_RULE = ("generated registries, alternately arbitrary ('wild': ids, references, array lengths and variant indices anywhere in u32/u8, "
+              "including every compact size-class boundary 63/64/16383/16384/2^30-1/2^30/2^32-1; strings empty, long (63/64/65/200 bytes), multi-byte UTF-8) "
+              "and well-formed, sizes 0..12 and 63/64/65 entries, every TypeDef kind; each is encoded by the real Encode (enc case: bytes, decode(encode(r))==r, encode twice) ; "
+              "each encoding is then mutated (truncation at a random and, for short ones, at every offset; bit flips; byte insertion/deletion/overwrite; "
+              "leading length field replaced by boundary/huge values; non-canonical compact patterns; trailing bytes) plus random byte strings, and given to the real Decode under catch_unwind "
+              "with a counting allocator (dec case). Non-trivial: registry non-empty (enc) / any dec case; distinct = distinct case lines.")
+
 PROPS = {
     'C12': dict(
         streams=[
@@ -31,5 +38,23 @@ PROPS = {
         rule="exhaustive: every single-segment string of length <=4 (quick) / <=6 (thorough) over the class-representative alphabet {a,Z,_,7,r,#,:,space,e-acute} through Path::from_segments; plus random segment lists, module paths (separators ::, :, :::) and replacement tables (0-3 rows, overlapping rows) through Path::new / new_with_replace with panics caught; accessors ident/namespace/Display observed on every constructed path. Non-trivial: the case reaches identifier validation (not the empty list).",
         trusted_base=COMMON_TB,
         assumptions=["str::split(\"::\"), strip_prefix, is_ascii behave as their documentation says (modelled in SIM.Model.Path)"],
+    ),
+    'C06': dict(
+        streams=[dict(name='codec', quick=1500, thorough=15000, filter=only('C06:'))],
+        rule=CODEC_RULE,
+        trusted_base=COMMON_TB + ["parity-scale-codec 3.7.5 is the party being compared with (its derive output for the scale-info types and its Compact/Vec/String/Option impls are modelled in SIM.Model.Codec)"],
+        assumptions=["the layout in the property statement is what SIM.Model.Codec.encode/decode transcribe"],
+    ),
+    'C07': dict(
+        streams=[dict(name='codec', quick=1500, thorough=15000, filter=only('C07:'))],
+        rule=CODEC_RULE + " C07 clauses: library decode(encode(r))==r with nothing left over, encode twice equal, no two distinct generated registries share bytes (hash map over the run).",
+        trusted_base=COMMON_TB,
+        assumptions=["Bounded (ids/lengths < 2^32, indices < 256, strings valid UTF-8) is exactly what the Rust types can hold"],
+    ),
+    'C14': dict(
+        streams=[dict(name='codec', quick=1500, thorough=15000, filter=only('C14:'))],
+        rule=CODEC_RULE + " C14 clauses on dec cases: no panic (catch_unwind; an abort kills the harness and is reported as CRASH), peak allocation <= 1024*len + 131072 bytes (counting allocator), an accepted input re-encodes to exactly the consumed bytes (library and layout encoder), resolve(len), resolve(len+7), resolve(u32::MAX) answer None.",
+        trusted_base=COMMON_TB + ["never panics / never aborts / memory proportional to input are run-time facts observed on the generated inputs, not proved"],
+        assumptions=["allocation bound constants 1024 and 131072 (the codec pre-allocates up to 16 KiB regardless of input)"],
     ),
 }
